@@ -3,6 +3,7 @@
 package main
 
 import (
+	"context"
 	"encoding/json"
 	"flag"
 	"fmt"
@@ -28,9 +29,14 @@ func init() {
 		final := fs.Bool("final", true, "final result")
 		kill := fs.Int("kill", 0, "kill before the k-th step (1-based)")
 		concurrent := fs.Int("concurrent", 0, "hold the final write of a mapreduce client before its k-th step and fire an interim report meanwhile")
+		noncumulative := fs.Bool("noncumulative", false, "with --concurrent: a non-cumulative client (continuous job): its interim writer is held while the client ends")
 		fs.Parse(argv)
 		setup(source.Client)
 		if *concurrent > 0 {
+			if *noncumulative {
+				outfileEndOfJob(*query, *rowsJSON, *concurrent)
+				return
+			}
 			outfileConcurrent(*query, *rowsJSON, *concurrent)
 			return
 		}
@@ -127,5 +133,59 @@ func outfileConcurrent(query, rowsJSON string, k int) {
 	case <-time.After(5 * time.Second):
 		fmt.Println("INTERIM-STUCK")
 	}
+	fmt.Println("CONCURRENT-DONE", steps)
+}
+
+// A non-cumulative client (a server-side continuous job): its periodic writer is held before its k-th
+// step while the last connection ends and Start returns.
+func outfileEndOfJob(query, rowsJSON string, k int) {
+	mc, err := clients.VerifNewMaprClient(query, false)
+	if err != nil {
+		fmt.Println("BADQUERY", err)
+		os.Exit(3)
+	}
+	var rows [][]string
+	json.Unmarshal([]byte(rowsJSON), &rows)
+	h := mc.VerifHandler("s0")
+	for _, r := range rows {
+		h.Write(append([]byte("AGGREGATE|s0|"+r[0]+"\u2225"+"1"+"\u2225"+"count(x)\u2254"+r[1]+"\u2225"+"g\u2254"+r[0]+"\u2225"), 0xac))
+	}
+	var mu sync.Mutex
+	steps, held := 0, false
+	reached := make(chan struct{})
+	release := make(chan struct{})
+	verifhook.Register(func(name string, args ...interface{}) {
+		if name != "outfile.step" {
+			return
+		}
+		mu.Lock()
+		steps++
+		hold := !held && steps == k
+		if hold {
+			held = true
+		}
+		mu.Unlock()
+		if hold {
+			close(reached)
+			<-release
+		}
+	})
+	interimDone := make(chan struct{})
+	go func() { mc.VerifReport(false); close(interimDone) }()
+	ctx, cancel := context.WithCancel(context.Background())
+	select {
+	case <-reached:
+		startDone := make(chan struct{})
+		go func() { mc.VerifStart(ctx); close(startDone) }()
+		select {
+		case <-startDone:
+		case <-time.After(1 * time.Second):
+		}
+		close(release)
+	case <-interimDone:
+	}
+	<-interimDone
+	time.Sleep(100 * time.Millisecond)
+	cancel()
 	fmt.Println("CONCURRENT-DONE", steps)
 }
